@@ -914,14 +914,19 @@ class _InternalBaseTracer(_InternalBaseTracerSuper, metaclass=MetaTracerStateMac
                 assert isinstance(code, ast.stmt)
                 code_body = [code]
             fundef.body = code_body + fundef.body
-            self.exec_raw(
-                sandboxed_code,
-                global_env=global_env,
-                local_env=local_env,
-                filename=filename,
-                instrument=False,
-            )
-        return local_env.pop(env_name)
+            try:
+                self.exec_raw(
+                    sandboxed_code,
+                    global_env=global_env,
+                    local_env=local_env,
+                    filename=filename,
+                    instrument=False,
+                )
+                return local_env.pop(env_name)
+            finally:
+                # never leave the scaffold's own names in the caller's mapping
+                local_env.pop(fun_name, None)
+                local_env.pop(env_name, None)
 
     def trace_lambda(self, lam: Callable[..., Any]) -> Callable[..., Any]:
         # for now, this is primarily so that we can distinguish between
